@@ -3,6 +3,7 @@ package props
 import (
 	"context"
 	"fmt"
+	"os"
 	"time"
 
 	"github.com/aperturerobotics/bifrost/hash"
@@ -65,6 +66,8 @@ type c29World struct {
 	recs       []*c29Sub
 	n          int
 	reconnects int
+	slowPeer   bool
+	bursts     int
 	pendingApp int
 }
 
@@ -90,7 +93,7 @@ func init() {
 		Cfg:        dsim.Config{MaxChaosSteps: 140, MaxStableSteps: 20000, Horizon: 20 * time.Second},
 		Real:       []string{"pubsub/controller.Controller (link tracking, trackLink opener choice, HandleMountedStream for the pubsub protocol)", "pubsub/floodsub.FloodSub (subscriptions, handlers, Release, unsubscribe announcements)", "transport/controller.Controller, controllerbus, peer controller (links variant)"},
 		Stub:       []string{"simlink transports between the two nodes (links variant)", "scripted peer observing subscription announcements (subs variant)", "go-cache janitor not started"},
-		FaultKinds: []string{"fault:link-fail", "fault:link-reestablished-same-uuid", "fault:release-racing-delivery", "fault:handler-removed-racing-delivery", "fault:peer-reconnect-same-tuple", "fault:chunking", "fault:clock-jump"},
+		FaultKinds: []string{"fault:link-fail", "fault:link-reestablished-same-uuid", "fault:peer-stops-reading", "fault:publish-burst", "fault:release-racing-delivery", "fault:handler-removed-racing-delivery", "fault:peer-reconnect-same-tuple", "fault:chunking", "fault:clock-jump"},
 	})
 }
 
@@ -156,6 +159,9 @@ func (w *c29World) setupLinks() {
 		w.subs[i] = sub
 	}
 	w.uuid = 500
+	// goroutine starts of the pubsub controller (link trackers) and of the router are
+	// scheduling points: a tracker may still be starting when its link goes and comes back
+	s.ArmFraction([]int{100, 50, 0}[s.Tape.Draw(3, "arm-pct")], []string{"go:pubsub/controller/", "go:pubsub/floodsub/"})
 	w.establish(false)
 }
 
@@ -263,10 +269,23 @@ func (w *c29World) setupSubs() {
 	w.v = w.fw.AddNode("V")
 	w.h = w.fw.ConnectScript(w.v, "H", 0)
 	w.h.WantChannels(true, "c1", "c2")
+	// in some runs the peer is slow: the router's stream to it has a small flow-control
+	// window and the peer may stop reading for a while (back-pressure up to the router's
+	// per-peer queue), while the local application publishes in bursts
+	w.slowPeer = t.Bool(1, 3, "slow-peer")
+	if w.slowPeer {
+		w.h.End.C.A.Strm.End().W.Window = 256
+	}
 	s.ArmFraction([]int{100, 100, 50, 0}[t.Draw(4, "arm-pct")], []string{"floodsub/deliver", "floodsub/release", "floodsub/handle-valid", "floodsub/handle-publish", "harness/stream-close", "harness/handler", "go:pubsub/floodsub/", "go:pubsub/controller/"})
 }
 
 func (w *c29World) actionsSubs(s *dsim.Sim, add func(dsim.Action)) {
+	if s.Phase == dsim.PhaseStable {
+		// the peer reads again
+		for _, c := range w.fw.Conns {
+			c.A.Strm.End().W.Stalled = false
+		}
+	}
 	w.fw.Actions(add)
 	if s.Phase == dsim.PhaseStable {
 		// the router announces subscription changes on its 100 ms re-evaluation tick: demand
@@ -348,6 +367,31 @@ func (w *c29World) actionsSubs(s *dsim.Sim, add func(dsim.Action)) {
 			}
 		}
 	}
+	if w.slowPeer {
+		dir := w.h.End.C.A.Strm.End().W
+		if !dir.Stalled {
+			add(dsim.Action{Name: "5flt:peer-stops-reading", Weight: 2, Fault: true, Fire: func() {
+				w.ops++
+				s.Count("fault:peer-stops-reading")
+				dir.Stalled = true
+			}})
+		} else {
+			add(dsim.Action{Name: "3op:peer-reads-again", Weight: 1, Fire: func() { w.ops++; dir.Stalled = false }})
+		}
+		if w.bursts < 2 {
+			add(dsim.Action{Name: "3op:publish-burst", Weight: 3, Fire: func() {
+				w.ops++
+				w.bursts++
+				ch := chs[t.Draw(2, "ch")]
+				s.Count("fault:publish-burst")
+				for k := 0; k < 40; k++ {
+					w.n++
+					d := fmt.Sprintf("b%d", w.n)
+					go func() { _ = w.v.Publish(ch, d) }()
+				}
+			}})
+		}
+	}
 	if w.reconnects < 2 {
 		add(dsim.Action{Name: "5flt:peer-reconnects-same-tuple", Weight: 2, Fault: true, Fire: func() {
 			// the peer re-opens its stream under the SAME (peer, link) tuple: the router
@@ -373,6 +417,13 @@ func (w *c29World) actionsSubs(s *dsim.Sim, add func(dsim.Action)) {
 }
 
 func (w *c29World) checkSubs(s *dsim.Sim, final bool) *dsim.Violation {
+	if final && os.Getenv("DSIM_DEBUG") != "" {
+		all := w.fw.Conns[0].A.Strm.End().W.All
+		if len(all) > 700 {
+			all = all[:700]
+		}
+		s.Logf("DEBUG wire %x", all)
+	}
 	for i, r := range w.recs {
 		if r.sr.AfterRelease > 0 {
 			return &dsim.Violation{Property: "C29", Rule: "handler-invoked-after-release", Witness: "subscription-release",
